@@ -30,4 +30,7 @@ def families(tier, seed):
     n = 10 if tier == "quick" else 120
     api = [(f"rx-{k}", apigen.replay_history(rng, tier, rtcp=True)[0]) for k in range(n)]
     return [Family("rdb-leaf", scripts, monitor=gen.rdb_leaf_monitor),
-            Family("srtcp-unprotect-histories", api, monitor=lambda s, c: apigen.replay_monitor(s, c, True))]
+            Family("srtcp-unprotect-histories", api, monitor=lambda s, c: apigen.replay_monitor(s, c, True)),
+            Family("gcm-srtcp-unprotect-histories", [(f"grx-{k}", apigen.with_aead(apigen.replay_history, random.Random(seed * 1000 + 107 + k), tier, rtcp=True)[0])
+                                                     for k in range(6 if tier == "quick" else 60)],
+                   monitor=lambda s, c: apigen.replay_monitor(s, c, True), config="openssl")]
